@@ -150,18 +150,16 @@ func ParseSelect(statement *sqlparser.Select) (logical.Node, *OutputOptions, err
 		var aggregateExprs []logical.Expression
 		var aggregateFieldNames []string
 		keyFieldNames := make([]string, len(key))
-		for i := range key {
-			keyFieldNames[i] = fmt.Sprintf("key_%d", i)
-		}
-		nameCounter := map[string]int{}
+		usedNames := map[string]bool{}
 		getUniqueName := func(name string) string {
-			count, ok := nameCounter[name]
-			if ok {
-				name = fmt.Sprintf("%s_%d", name, count)
+			baseName := name
+			for n := 1; usedNames[name]; n++ {
+				name = fmt.Sprintf("%s_%d", baseName, n)
 			}
-			nameCounter[name] = count + 1
+			usedNames[name] = true
 			return name
 		}
+		mapAliases := make([]string, len(isAggregate))
 		for i, ok := range isAggregate {
 			if ok {
 				nonKeyAggregates = append(nonKeyAggregates, aggregates[i])
@@ -176,6 +174,10 @@ func ParseSelect(statement *sqlparser.Select) (logical.Node, *OutputOptions, err
 				}
 				aggregateFieldNames = append(aggregateFieldNames, name)
 				outputExprs[i] = logical.NewVariable(name)
+			} else if keyFieldNames[keyPart[i]] != "" {
+				// This key part is selected again, it is already named. The alias is given to the copy by the map above.
+				outputExprs[i] = logical.NewVariable(keyFieldNames[keyPart[i]])
+				mapAliases[i] = aliases[i]
 			} else {
 				var name string
 				if aliases[i] != "" {
@@ -190,8 +192,14 @@ func ParseSelect(statement *sqlparser.Select) (logical.Node, *OutputOptions, err
 			}
 		}
 
+		for i := range keyFieldNames {
+			if keyFieldNames[i] == "" {
+				keyFieldNames[i] = getUniqueName(fmt.Sprintf("key_%d", i))
+			}
+		}
+
 		root = logical.NewGroupBy(root, key, keyFieldNames, aggregateExprs, nonKeyAggregates, aggregateFieldNames, triggers)
-		root = logical.NewMap(outputExprs, make([]string, len(outputExprs)), make([]string, len(outputExprs)), make([]bool, len(outputExprs)), make([]logical.Expression, len(outputExprs)), make([]bool, len(outputExprs)), root)
+		root = logical.NewMap(outputExprs, mapAliases, make([]string, len(outputExprs)), make([]bool, len(outputExprs)), make([]logical.Expression, len(outputExprs)), make([]bool, len(outputExprs)), root)
 	} else {
 		expressions := make([]logical.Expression, len(statement.SelectExprs))
 		starQualifiers := make([]string, len(statement.SelectExprs))
